@@ -23,13 +23,14 @@ func init() {
 			"(R2) every allocation whose size derives from a wire integer (make, map size hint, reflect.MakeSlice, helper constructors) is dominated by a comparison with a constant cap, the remaining length, or the bounds check; the three documented caps (map entries, version-vector entries, frame length) are constant caps; " +
 			"(R3) panic sites of the closed class list have their guard: registry-typed assertions, reflect preconditions (Elem/IsNil after Kind()==Ptr, Interface only for exported/interfaceable values, Addr after CanAddr, Len/Index/NumField/Field inside their kind's case), nil checks before dereferencing pointer-typed message fields and helper parameters, nil check of the optional Codec, the descriptor's reader/writer only for non-outside descriptors, nil-pointer messages rejected before the writer; " +
 			"(R4) inside the primitive reader no store through the caller's pointer is followed by a read that can fail, and every nested read of the reflective reader targets a temporary (reflect.New / reflect.MakeSlice), never the caller's own elements; (R5) every call-graph cycle inside the codec has an edge that passes a structurally smaller value; (R6) a loop whose test compares against a wire-supplied integer either performs, on every iteration, a read from the codec's Reader (which fails at the end of the input, so the iteration count is bounded by the input) or has its bound dominated by a constant cap / the remaining length / the bounds check. " +
-			"(R7) every constant-index read x[c] of a string or slice in the functions reachable from the decoders — including the reference factory and the address / path normalisation helpers outside the codec packages — is dominated by an edge asserting len(x) > c for that very value. (R8 = C12.R10) no error of the codec layer is dropped implicitly. NOT decided: time proportionality beyond allocation bounds; cyclic Go values passed to the writer; panics outside the listed construct classes.",
+			"(R7) every constant-index read x[c] of a string or slice in the functions reachable from the decoders — including the reference factory and the address / path normalisation helpers outside the codec packages — is dominated by an edge asserting len(x) > c for that very value. (R8 = C12.R10) no error of the codec layer is dropped implicitly. (R9) contradiction rule: a pointer-typed call result that a function on the decode path compares with nil somewhere is used as a method receiver or field base only where its != nil edge dominates — a use in front of the test dereferences nil for exactly the inputs the test exists for. NOT decided: time proportionality beyond allocation bounds; cyclic Go values passed to the writer; panics outside the listed construct classes.",
 		Rules: []Rule{
 			{ID: "C13.R1", Min: 15, Desc: "cursor discipline", Fn: c13Cursor},
 			{ID: "C13.R2", Min: 6, Desc: "bounded allocation", Fn: c13Alloc},
 			{ID: "C13.R3", Min: 40, Desc: "panic sites guarded", Fn: c13Panics},
 			{ID: "C13.R4", Min: 17, Desc: "decode into temporaries", Fn: c13Temporaries},
 			{ID: "C13.R5", Min: 2, Desc: "progress in recursion", Fn: c13Recursion},
+			{ID: "C13.R9", Min: 1, Desc: "a pointer the decoder tests for nil is used only where that test has passed (contradiction rule)", Fn: c13NilChecked},
 			{ID: "C13.R7", Min: 3, Desc: "constant-index reads of strings and slices on the decode path are guarded by a length fact on the same value", Fn: c13ConstIndex},
 			{ID: "C13.R8", Min: 1, Desc: "no error of the codec layer is dropped implicitly (C12.R10)", Fn: func(p *Program, r *Report) {
 				p.checkNoImplicitDrop(r, "the codec (messages, envelope and cluster serialisers, registered readers/writers)", "an encoding error that is not propagated yields a truncated or empty frame that is sent as if it were complete; a decoding error that is not propagated hands on a half-filled message", func(rel string) bool {
